@@ -17,7 +17,7 @@ def main():
     cfg = {'timeout_ms': 60000, 'unwind': 12}
     jobs = [Job(P + 'VerifC11Symmetry', (0,), cfg=cfg), Job(P + 'VerifC11Symmetry', (1,), cfg=cfg),
             Job(P + 'VerifC11Devices', (0,), cfg=cfg), Job(P + 'VerifC11Devices', (1,), cfg=cfg)]
-    for sc in range(5):
+    for sc in range(6):
         jobs.append(Job(P + 'VerifC11ImportGuards', (sc,), cfg=cfg))
     jobs.append(Job(P + 'VerifC11Witness', (), witness=True, cfg=cfg))
     res = chk.run_jobs(jobs)
